@@ -24,6 +24,8 @@ from props.vermodel import V, concretise
 
 CORE = ['/', '/a', '/b', '/{x}', '/{r:.*}', '/a/b', '/a/{x}', '/a/{y}', '/a/{r:.*}', '/{x}/a', '/{x}/{y}', '/{x}/{r:.*}']
 ODD = ['/{x}/{x}', '/{r:.*}/a', '/a/{s:.*}', '/a/']
+# an extension method in lower case: registration and lookup must agree on its spelling
+EXT_METHOD_TABLES = [[('purge', '/a', 'All'), ('GET', '/a', 'From')], [('purge', '/a/{x}', 'From'), ('purge', '/a/{x}', 'Until')]]
 CASE_PAIRS = [('/{X}', '/{x}/a'), ('/a/{x}', '/a/{X}'), ('/{R:.*}', '/{r:.*}')]     # variable names are compared exactly
 KIND_PAIRS = [(a, b) for a in RL.KINDS for b in RL.KINDS]
 REQ_METHODS = ['GET', 'PUT', 'DELETE', 'get']
@@ -62,7 +64,7 @@ def family(tier, seed):
     extra = all3 if tier == 'thorough' else all3[:10]
     for t in extra:
         triples.append([(m, p, rnd.choice(RL.KINDS[1:])) for m, p in t])
-    tables = triples + tables        # heavy tables first (scheduling only)
+    tables = triples + EXT_METHOD_TABLES + tables        # heavy tables first (scheduling only)
     return tables
 
 
@@ -107,6 +109,8 @@ class TableRun:
         self.assume = sum([e.assumptions() for e in self.eps], [])
         self.lits = sorted({n for e in self.eps for k, n in e.tmpl if k == 'lit'})
         self.all_versions = [v for e in self.eps for v in e.versions()]
+        extra = sorted({m for m, _, _ in spec if m not in REQ_METHODS})
+        self.req_methods = REQ_METHODS + extra + [m.upper() for m in extra if m.upper() not in REQ_METHODS]
 
     def name(self, what): return f'{self.tag}/{what}'
 
@@ -187,7 +191,7 @@ class TableRun:
         reach = {e.id: [] for e in self.eps}
         self.errs = []
         for k in range(self.kmax + 1):
-            rq = Request(k, REQ_METHODS, versioned=any(e.kind != 'All' for e in self.eps) or k % 2 == 0)
+            rq = Request(k, self.req_methods, versioned=any(e.kind != 'All' for e in self.eps) or k % 2 == 0)
             def h(ex):
                 rc, rej, msg = self.R.build(ex, self.eps, order)
                 if rej is not None: return None
@@ -333,7 +337,7 @@ class TableRun:
         if not accepted_pcs: return
         acc = z3.Or([z3.And(*pc) if pc else z3.BoolVal(True) for pc in accepted_pcs])
         for k in range(self.kmax + 1):
-            rq = Request(k, REQ_METHODS, versioned=True, tag='amb')
+            rq = Request(k, self.req_methods, versioned=True, tag='amb')
             for e1, e2 in itertools.combinations(self.eps, 2):
                 both = zand(matches(e1, rq), matches(e2, rq))
                 if both is False: continue
@@ -558,6 +562,7 @@ def run(which, tier, replay_file=None, before_finish=None):
     chk = Check(which, tier)
     ex = chk.load(vermodel.MODELS + RL.ROUTER_MODELS + (httpmodel.MODELS if which == 'C04' else []) + BASE_MODELS)
     ex.const_models.append(httpmodel.const_model)
+    vermodel.register_comparator(ex)
     R = RL.Router(chk, ex)
     RL.Ctx.into_response = mir.find(ex.fns, r'error::<impl at [^>]*>::into_response$') if which == 'C04' else None
     from mirsym.runner import replay_bin
